@@ -10,14 +10,14 @@ CHECKS = {
     "C01": {
         "technique": "symbolic builder-term extraction + rational normaliser over the syn AST (clip factor, norm pipeline), positional def-use of the clipping constant, arm table of absolute_upper_bound",
         "level": "Decides the structural clauses of the sensitivity bound: one clipping constant feeds both the clip and the Gaussian sigma (S1), the per-unit L2 norm over all groups is computed before scaling and the scaled rows are what is summed (S2), "
-                 "the clip factor normalises to 1/max(1, n/C) with the C=0 branch 0 (S3), the absolute bound is max(|lo|,|hi|) without i64 overflow (S4). Execution of the produced SQL on neighbouring databases is not decided.",
+                 "the clip factor normalises to 1/max(1, n/C) with the C=0 branch 0 (S3), the absolute bound is never negative and is computed without i64 overflow (S4; its magnitude is decided under C09/W5). Execution of the produced SQL on neighbouring databases is not decided.",
         "design_ref": "DESIGN.md §3 C01",
         "note": "Trusted: the Function variants denote what their names say; SQL engines evaluate the produced relation as the term denotes; privacy-unit tracking (C05) delivers the unit column.",
     },
     "C03": {
         "technique": "flow-sensitive MIR dataflow of DpEvent carriers (must-reach the return place on every normal path) + AST term rules for budget agreement and conservation",
         "level": "Decides that no DpEvent produced in the DP / rewriting code is discarded on a normally returning path (V1), that each Gaussian / tau mechanism site reports an event built from a budget at least the one it used (V2), "
-                 "that shares and splits conserve the budget handed down (V3), and that gaussian_noise / gaussian_noise_multiplier have the closed form of the classical calibration with a saturating-only clamp (V4). Adequacy of that bound itself is not decided.",
+                 "that shares and splits conserve the budget handed down (V3), and that gaussian_noise / gaussian_noise_multiplier have the closed form of the classical calibration with a saturating-only clamp (V4), and that the event algebra never loses a mechanism: compose returns one operand only when the other is a no-op and is_no_op looks at every entry of a composed event (V5). Adequacy of that bound itself is not decided.",
         "design_ref": "DESIGN.md §3 C03",
         "note": "Trusted: rustc MIR (mir-opt-level 0); helper-moved mechanisms fail closed as UNDECIDED; over-reporting is not a violation.",
     },
@@ -30,7 +30,7 @@ CHECKS = {
     },
     "C05": {
         "technique": "AST term/arm tables of PrivacyUnitTracking and JoinBuilder::and, MIR aggregate facts for the PupRelation typestate, MIR def-use of builder call order, sibling cross-check of the protected-table predicate",
-        "level": "Decides the structural necessary conditions of 'a tracked row depends only on its own unit': unit-id equality ANDed onto the original operator (Y1), tracked-side columns in published joins (Y1b), group-by-unit under Hard / refusal under Soft (Y2), "
+        "level": "Decides the structural necessary conditions of 'a tracked row depends only on its own unit': unit-id equality ANDed onto the original operator (Y1), tracked-side columns in published joins (Y1b), group-by-unit under Hard / refusal under Soft with a grouping call that is effective whatever outputs were added before (Y2), "
                  "closed PupRelation typestate (Y3), inner FK join on the right ids (Y4), JoinBuilder::and covers every ON-carrying join kind (Y5), map/set carry the unit columns (Y6), non-null output unit id for every row the join kind keeps (Y7), chaining of foreign-key hops (Y8), builder order (B1), setter/tracker agreement (T5).",
         "design_ref": "DESIGN.md §3 C05",
         "note": "Not decided: 'exactly the rows of D restricted to u' over all databases.",
@@ -38,7 +38,7 @@ CHECKS = {
     "C06": {
         "technique": "abstract interpretation of closure ASTs (monotonicity class x sign/range per declared piece) against a reviewed transfer table; normal-form comparison of the constructor plumbing, aggregate-image idioms, corner hull and wrapper fallbacks",
         "level": "Decides the soundness premise of box-image propagation for every PartitionnedMonotonic site: the closure is separately monotone on every declared piece and the pieces cover the domain (M, P), aggregate images hull the element set (A), "
-                 "super_image takes least/greatest over all corners (O2), wrappers fall back to the co-domain (O), optional flags are the disjunction of all children (O3), sibling arms of one SQL function compute the same operator (S), value enumerations are not truncated (N1). Exhaustive over the function table; numeric adequacy of hand-written aggregate bounds is not decided.",
+                 "super_image takes least/greatest over all corners (O2), wrappers fall back to the co-domain (O), Pointwise / PartitionnedMonotonic refuse a set outside their domain through their own test or through guarded injections (D), optional flags are the disjunction of all children (O3), sibling arms of one SQL function compute the same operator (S), value enumerations are not truncated (N1). Exhaustive over the function table; numeric adequacy of hand-written aggregate bounds is not decided.",
         "design_ref": "DESIGN.md §3 C06",
         "note": "Trusted: the reviewed transfer table (qv/c06_rules.py, one mathematical reason per line); unknown operations fail closed.",
     },
@@ -51,7 +51,7 @@ CHECKS = {
     },
     "C09": {
         "technique": "symbolic evaluation of the aggregate recombination to terms + rational normaliser (equality up to algebra, with distinguishing valuations), DISTINCT classification tables, cross-site size provenance",
-        "level": "Decides that, per Aggregate arm, the output term over the noisy sums equals the textbook recombination (W1), that DISTINCT aggregates are rewritten to their twins over a de-duplicating group-by (W2) that the data-set size bounding the multiplicity is the input's (W3) and that each DISTINCT split is aggregated over its own input (W4). "
+        "level": "Decides that, per Aggregate arm, the output term over the noisy sums equals the textbook recombination (W1), that DISTINCT aggregates are rewritten to their twins over a de-duplicating group-by (W2) that the data-set size bounding the multiplicity is the input's (W3), that each DISTINCT split is aggregated over its own input (W4) and that the clipping bound of a column is max(|min|, |max|) through any depth of Optional (W5). "
                  "Group completeness, NULL handling by engines and floating-point error are not decided.",
         "design_ref": "DESIGN.md §3 C09",
         "note": "Trusted: C01's pipeline delivers exact sums when sigma=0 and no norm exceeds C.",
@@ -65,7 +65,7 @@ CHECKS = {
     },
     "C11": {
         "technique": "MIR who-may-write facts for the interval vector and return-place dominance in the two mutators; AST rules for hull construction; simulated ordered match over all variant pairs for the four lattice operations",
-        "level": "Decides encapsulation of the interval-set invariant (L1), that simplification returns self or the min/max hull (L2), conservative defaults and neutral/absorbing elements of the cross-variant dispatch over all 21x21 pairs (L3) the conversion direction of cross-variant arms (L4), component-wise composite operations (L5), least/greatest Bound values (L6) and untruncated value enumerations (N1). "
+        "level": "Decides encapsulation of the interval-set invariant (L1), that simplification returns self or the min/max hull (L2), conservative defaults and neutral/absorbing elements of the cross-variant dispatch over all 21x21 pairs (L3) the conversion direction of cross-variant arms (L4), component-wise composite operations (L5), least/greatest Bound values (L6), an order on interval sets that is inclusion (L7) and untruncated value enumerations (N1). "
                  "Index arithmetic of union/intersection and per-variant laws over values are not decided.",
         "design_ref": "DESIGN.md §3 C11",
         "note": "L1(d) compile-fail witnesses are in /verif/witness (thorough tier).",
@@ -73,33 +73,33 @@ CHECKS = {
     "C08": {
         "technique": "join of the renderer table (variant -> translator method -> SQL spelling, from type-resolved MIR switch/const facts) with the reader table (SQL name -> operator, from the syn AST); positional slot tables of the CTE renderer; oracle table of standard SQL names",
         "level": "Decides, for every operator the SQL reader can produce, that it is rendered without abort (E3) under a spelling the reader maps back to the same operator (E4), that standard SQL names have their standard meaning (E5), that every component of a relation node and every alias is rendered "
-                 "inside the node's CTE (E7, E8), that operator operands are parenthesised (E9), that GROUP BY prefers input columns over aliases (E10), that the builders keep the WHERE on every split shape (E11), that nested CASE is merged in order (E12) that CTE lists of binary nodes are merged through one set (E13), that float literals are written with round-trip precision (E14), that the Map/Reduce split keeps the order of select items (E15) and that CTE definitions are spelled like their references (E16). Execution on databases, name resolution as a whole and the Map/Reduce split are not decided.",
+                 "inside the node's CTE (E7, E8), that operator operands are parenthesised (E9), that GROUP BY prefers input columns over aliases (E10), that the builders keep the WHERE on every split shape (E11), that nested CASE is merged in order (E12) that CTE lists of binary nodes are merged through one set (E13), that float literals are written with round-trip precision (E14), that the Map/Reduce split keeps the order of select items (E15) that CTE definitions are spelled like their references (E16), that literals are rendered through exact (transparent) Display impls (E17), that a name becomes a one-component identifier (E18), that the default sort direction is ascending on both sides (E19) and that in every dialect the columns of a Map / Reduce CTE are named by the column list or by aliases that survive the dialect's hooks (E8). Execution on databases, name resolution as a whole and the Map/Reduce split are not decided.",
         "design_ref": "DESIGN.md §3 C08",
         "note": "Trusted: sqlparser parses NAME(args) into a Function node of that name (keyword functions listed); operators map to same-named ast operators.",
     },
     "C12": {
         "technique": "arm-table parity of super_image / value over the syn AST, must-pass-through of the checked_* guards, MIR cast facts with dominating round-trip tests, reviewed table of the 14 primitive pairs",
-        "level": "Decides set/value parity of the 24 dispatching injections (J1), that primitive values and images go through the checked guards (J2), that lossy numeric casts are dominated by a round-trip test (J3), that narrowing / non-monotone conversions can refuse and only map single values (J4), untruncated value enumerations (N1) and a single value-conversion entry point (J5). "
+        "level": "Decides set/value parity of the 24 dispatching injections (J1), that primitive values and images go through the checked guards (J2), that lossy numeric casts are dominated by a round-trip test (J3), that narrowing / non-monotone conversions can refuse and only map single values (J4), untruncated value enumerations (N1), a single value-conversion entry point (J5) and text renderings that print a wrapper only through a transparent Display (J6). "
                  "Injectivity of format!-based renderings and composite liftings over all values are not decided.",
         "design_ref": "DESIGN.md §3 C12",
         "note": "Trusted: the reviewed classification of primitive pairs (PAIRS in qv/c12.py); a new pair is UNDECIDED.",
     },
     "C14": {
         "technique": "audit of the bijection list against a reviewed injective table, decision-term extraction of Reduce::schema_aggregate, flag pairing in Join::schema, who-may-attach-a-constraint inventory (syn AST)",
-        "level": "Decides that uniqueness is only propagated through functions reviewed as injective (U1), that a group key's UNIQUE depends on the grouping (U2), that join constraints are kept under the other side's key uniqueness with both sides involved (U3), that Values is UNIQUE only when literals are distinct (U4), that the key predicate is true exactly for Unique / PrimaryKey (U5) that no other site attaches constraints (U0) and that constraints are read through an exact field lookup (H8).",
+        "level": "Decides that uniqueness is only propagated through functions reviewed as injective (U1), that a group key's UNIQUE depends on the grouping, with one convention shared by the builders that emit First(..) and the schema that reads them (U2), that join constraints are kept under the other side's key uniqueness with both sides involved (U3), that Values is UNIQUE only when literals are distinct (U4), that the key predicate is true exactly for Unique / PrimaryKey (U5) that no other site attaches constraints (U0) and that constraints are read through an exact field lookup (H8).",
         "design_ref": "DESIGN.md §3 C14",
         "note": "Trusted: base tables honour their constraints; floating-point collisions of exp/ln/sqrt and md5 collisions accepted by the reviewed table.",
     },
     "C15": {
         "technique": "simulation of the Found fold and of the Found->Option conversion on all states, call-order/arm tables of Hierarchy lookups, arm table of USING/NATURAL coalescing (syn AST)",
-        "level": "Decides that ambiguity is absorbing and only a single suffix match yields a result (H1), that the exact lookup precedes the suffix search and every accessor goes through it over an ordered map (H2), the suffix predicate (H3), that USING coalesces only the listed columns (H4), that a CTE captures only whole-name unresolved references (H5), that last() decides through the lookup (H6) that FROM items are registered under alias or whole table path (H7), exact field lookup inside a schema (H8) and a single whole-path column lookup in expressions (H9). "
+        "level": "Decides that ambiguity is absorbing and only a single suffix match yields a result (H1), that the exact lookup precedes the suffix search and every accessor goes through it over an ordered map (H2), the suffix predicate (H3), that USING coalesces only the listed columns (H4), that a CTE captures only whole-name unresolved references (H5), that last() decides through the lookup (H6) that FROM items are registered under alias or whole table path (H7), exact field lookup inside a schema (H8), a single whole-path column lookup in expressions (H9) and a USING/NATURAL join that is consistent with the column map handed to the resolver (H10). "
                  "The lookup law over all maps/paths and which column sets reach the lookup from SQL are not decided as a whole.",
         "design_ref": "DESIGN.md §3 C15",
         "note": "Restructured folds fail closed (UNDECIDED).",
     },
     "C17": {
         "technique": "per-translator renderer tables from the MIR (override or default, abort analysis, SQL spelling constants) joined with each dialect's reader table from the AST; dialect pairing; quote characters evaluated against sqlparser's own dialect source",
-        "level": "Decides for the eight translators that every operator in scope is rendered without abort (E3d), under a spelling the same dialect's reader reads back as the same operator (E4d), that each translator reads with its own sqlparser dialect (E5d), quotes identifiers with a character that dialect accepts (E6), and the shared rendering rules E7-E9, E12-E14. "
+        "level": "Decides for the eight translators that every operator in scope is rendered without abort (E3d), under a spelling the same dialect's reader reads back as the same operator (E4d), that each translator reads with its own sqlparser dialect (E5d), quotes identifiers with a character that dialect accepts (E6), and the shared rendering rules E7-E9, E12-E14, E16-E19. "
                  "Acceptance by the real engines and per-engine semantics are not decided.",
         "design_ref": "DESIGN.md §3 C17",
         "note": "Trusted: sqlparser source in the cargo registry at the version pinned by /repo/Cargo.lock.",
@@ -113,7 +113,7 @@ CHECKS = {
     },
     "C13": {
         "technique": "arm/term tables over the syn AST: selector/eliminator predicate atoms, origin-tracking mini-evaluator for the cartesian enumeration and child order, arg-max comparator shape",
-        "level": "Decides the clauses of C13 that are in the shape of the code: the derivation applied is well-typed (G1 positional agreement, G4 child order), all consistent choices are enumerated (G2 cartesian product, no truncation), "
+        "level": "Decides the clauses of C13 that are in the shape of the code: the derivation applied is well-typed (G1 positional agreement, G4 child order), all consistent choices are enumerated (G2 cartesian product, no truncation; G5 drivers return what the visitor computed, de-duplication only under structural equality), "
                  "the best-scoring accepted candidate is returned or unreachable_property reported (G3), the accepted root labels are exactly the reviewed sets (G6) and the score is additive with the reviewed ranking (G7). Completeness over all trees is not decided.",
         "design_ref": "DESIGN.md §3 C13",
         "note": "Trusted: visitor.rs hands each node the results of its inputs; syn parses what rustc builds. Completeness/optimality over arbitrary trees out of reach of static rules.",
@@ -121,13 +121,13 @@ CHECKS = {
     "C16": {
         "technique": "reachability over an instantiation-aware (monomorphic) call graph built by a rustc_private MIR driver; who-may-reach rules for hash-order iteration, the global name counter, statics and ambient nondeterminism",
         "level": "Decides that no source of non-determinism (hash-order iteration with an order-sensitive consumer D1, the process-global name counter D2, other process state D3, RNG/clock/env/thread ids D4) is reachable from "
-                 "the parse, render and type entry points, for every instantiation the crate's own code makes, and that every Hash impl feeding the content-derived names covers the whole content (D5). This is a necessary condition of deterministic compilation; semantic equality of re-parsed SQL is not decided.",
+                 "the parse, render and type entry points, for every instantiation the crate's own code makes, and that every Hash impl feeding the content-derived names covers the whole content (D5); the default sort direction and float literals are the same for reader and renderer (E19, E14). This is a necessary condition of deterministic compilation; semantic equality of re-parsed SQL is not decided.",
         "design_ref": "DESIGN.md §3 C16",
         "note": "Trusted: rustc's Instance resolution; calls through fn pointers resolved at the reification site; drop glue not followed. One edge suppression with a checked caller invariant (qv/reach.py).",
     },
     "C18": {
         "technique": "reachability over the monomorphic call graph (rustc MIR driver) + MIR switch/assert facts: inventory of explicit aborts keyed by the enum variants that select them, unchecked i64 arithmetic with a reviewed safe table, dispatch-table holes",
-        "level": "Inventory: every todo!/unimplemented!/panic!/unreachable! (P1), every overflow-checked i64 operation outside a reviewed safe table (P2) every unwrap of the by-design refusal Variant::try_empty (P5), an integer-range enumeration whose length test under-reports (P6) and every hole of the two implementation dispatch tables (E1) that is reachable from the "
+        "level": "Inventory: every todo!/unimplemented!/panic!/unreachable! (P1), every overflow-checked i64 operation outside a reviewed safe table (P2) every unwrap of the by-design refusal Variant::try_empty (P5), an integer-range enumeration whose length test under-reports (P6), every implementation registered without the Optional wrapper whose super_image can refuse (P7) and every hole of the two implementation dispatch tables (E1) that is reachable from the "
                  "public entry points is reported; the sites on the pinned tree are input-confirmed known findings, any new one is a violation. unwrap/expect, indexing, assert! preconditions and termination are not decided.",
         "design_ref": "DESIGN.md §3 C18",
         "note": "Trusted: as C16. The 175 P1 findings are one class (unsupported construct -> abort instead of Err); a sample was confirmed by input with a probe binary (DESIGN §6).",
